@@ -73,7 +73,9 @@ func RunHarness(p *Program, h *Harness, cfg runCfg) (res *Result) {
 		s := c.SortOf(prm.Type())
 		v := c.Const("p_"+prm.Name(), s)
 		args[i] = v
-		x.assumeFact(st, x.paramInv(st, prm.Type(), v))
+		if !x.bindIteratorParam(st, prm.Type(), v) {
+			x.assumeFact(st, x.paramInv(st, prm.Type(), v))
+		}
 	}
 	outs := x.callFunc(st, h.Fn, args, nil)
 	res.ExecMs = time.Since(start).Milliseconds()
